@@ -274,8 +274,12 @@ def seed_from_env():
 # running case streams
 
 def chunks(lst, n):
-    k = max(1, (len(lst) + n - 1) // n)
-    return [lst[i:i + k] for i in range(0, len(lst), k)]
+    """n interleaved parts (round-robin): expensive cases usually sit next to each other in a stream"""
+    n = max(1, min(n, len(lst)))
+    return [lst[i::n] for i in range(n)]
+
+
+LAST_SKIPPED = set()
 
 
 def run_drive(exe, api, lines, shards=NCPU, env=None, timeout=3600, flags=None):
@@ -286,6 +290,7 @@ def run_drive(exe, api, lines, shards=NCPU, env=None, timeout=3600, flags=None):
     {"S": usage, "M": bits, "L": bytes (+ "Lreport": LeakSanitizer text), "T": trace record}."""
     if not lines:
         return [], []
+    LAST_SKIPPED.clear()
     parts = chunks(list(enumerate(lines)), shards)
 
     def work(part):
@@ -324,6 +329,12 @@ def run_drive(exe, api, lines, shards=NCPU, env=None, timeout=3600, flags=None):
                 break
             crashes.append((part[bad][0], r.returncode, r.stderr[-1500:]))
             pos = bad + 1
+            # a defect that makes many cases hang would cost 20 s per case: after 6 watchdog kills in one shard the
+            # rest of the shard is not run (the kills themselves are reported; skipped cases are marked as such)
+            if sum(1 for _, rc, _ in crashes if rc == -14) >= 6:
+                for k in range(pos, len(part)):
+                    fl.setdefault(part[k][0], {})["skipped"] = "1"
+                break
         return out, crashes, fl
 
     records = [None] * len(lines)
@@ -335,6 +346,7 @@ def run_drive(exe, api, lines, shards=NCPU, env=None, timeout=3600, flags=None):
             crashes += cr
             if flags is not None:
                 flags.update(fl)
+            LAST_SKIPPED.update(i for i, d in fl.items() if "skipped" in d)
     return records, crashes
 
 
